@@ -44,30 +44,40 @@ Qed.
 Lemma pending_st_drop : forall q o t, t <> o -> pending_st (drop q o) t = pending_st q t.
 Proof. intros. unfold pending_st. now rewrite lookup_drop_other. Qed.
 
-Lemma nodup_ids_drop : forall q o, nodup_ids q = true -> nodup_ids (drop q o) = true.
+Lemma obj_eqb_eq : forall a b, obj_eqb a b = true -> a = b.
 Proof.
-  induction q as [|ob q IH]; intros o H; cbn in *; [reflexivity|].
-  apply andb_true_iff in H as [H1 H2].
-  destruct (Nat.eqb (o_id ob) o); cbn; [now apply IH|].
-  apply andb_true_iff; split; [|now apply IH].
-  apply negb_true_iff. apply negb_true_iff in H1.
-  match goal with |- ?X = false => destruct X eqn:E; [|reflexivity] end.
-  apply existsb_exists in E as [x [Hx Hx2]]. apply (in_drop q o x) in Hx as [Hx _].
-  assert (existsb (fun x => Nat.eqb (o_id x) (o_id ob)) q = true) by (apply existsb_exists; eauto). congruence.
+  intros [i1 s1 c1] [i2 s2 c2] H. unfold obj_eqb in H; cbn in H.
+  apply andb_true_iff in H as [H H3]. apply andb_true_iff in H as [H1 H2].
+  apply Nat.eqb_eq in H1. subst i2.
+  assert (s1 = s2) by (destruct s1, s2; try discriminate; reflexivity). subst s2.
+  assert (c1 = c2).
+  { clear H2. revert c2 H3. induction c1 as [|[n1 v1] c1 IH]; intros [|[n2 v2] c2] H; cbn in H; try discriminate; [reflexivity|].
+    apply andb_true_iff in H as [H H']. unfold col_eqb in H; cbn in H. apply andb_true_iff in H as [Hn Hv]. apply Nat.eqb_eq in Hn. subst n2.
+    f_equal; [|now apply IH]. f_equal. destruct v1, v2; try discriminate; [apply Nat.eqb_eq in Hv; now subst | reflexivity]. }
+  now subst.
 Qed.
 
-Lemma nodup_lookup_head : forall ob q, nodup_ids (ob :: q) = true -> lookup (ob :: q) (o_id ob) = Some ob.
+Lemma coherent_ids_drop : forall q o, coherent_ids q = true -> coherent_ids (drop q o) = true.
+Proof.
+  induction q as [|ob q IH]; intros o H; [reflexivity|].
+  cbn [coherent_ids] in H. apply andb_true_iff in H as [H1 H2].
+  unfold drop. cbn [filter]. fold (drop q o). destruct (negb (Nat.eqb (o_id ob) o)); [|now apply IH].
+  cbn [coherent_ids]. apply andb_true_iff; split; [|now apply IH].
+  rewrite forallb_forall in *. intros x Hx. apply H1. apply (in_drop q o x) in Hx. tauto.
+Qed.
+
+Lemma nodup_lookup_head : forall ob q, lookup (ob :: q) (o_id ob) = Some ob.
 Proof. intros. unfold lookup. cbn. now rewrite Nat.eqb_refl. Qed.
 
-Lemma nodup_lookup_unique : forall q ob, nodup_ids q = true -> In ob q -> lookup q (o_id ob) = Some ob.
+Lemma nodup_lookup_unique : forall q ob, coherent_ids q = true -> In ob q -> lookup q (o_id ob) = Some ob.
 Proof.
   induction q as [|x q IH]; intros ob H Hin; [contradiction|].
-  cbn in H. apply andb_true_iff in H as [H1 H2]. destruct Hin as [->|Hin].
+  cbn [coherent_ids] in H. apply andb_true_iff in H as [H1 H2]. destruct Hin as [->|Hin].
   - unfold lookup. cbn. now rewrite Nat.eqb_refl.
-  - unfold lookup. cbn. destruct (Nat.eqb (o_id x) (o_id ob)) eqn:E.
-    + apply negb_true_iff in H1. assert (existsb (fun y => Nat.eqb (o_id y) (o_id x)) q = true).
-      { apply existsb_exists. exists ob. split; [assumption|]. now rewrite Nat.eqb_sym. }
-      congruence.
+  - unfold lookup. cbn [find]. destruct (Nat.eqb (o_id x) (o_id ob)) eqn:E.
+    + rewrite forallb_forall in H1. specialize (H1 ob Hin). apply orb_true_iff in H1 as [H1|H1].
+      * apply negb_true_iff in H1. rewrite Nat.eqb_sym in H1. congruence.
+      * apply obj_eqb_eq in H1. now subst.
     + now apply IH.
 Qed.
 
@@ -124,6 +134,52 @@ Proof.
       apply negb_true_iff in Hf. exact (eq_true_false_abs _ Ho Hf).
 Qed.
 
+Lemma hard_false_of_points : forall d cols, points_to d cols = false -> hard_points_to d cols = false.
+Proof.
+  intros d cols H. destruct (hard_points_to d cols) eqn:E; [|reflexivity]. exfalso.
+  unfold hard_points_to in E. apply existsb_exists in E as [c [Hc Hc2]]. apply andb_true_iff in Hc2 as [_ Hc2].
+  assert (points_to d cols = true) by (apply existsb_exists; eauto). congruence.
+Qed.
+
+Lemma hard_set_cols : forall old new d,
+  hard_points_to d new = false -> (hard_points_to d old = false \/ overrides old new d = true) -> hard_points_to d (set_cols old new) = false.
+Proof.
+  intros old new d Hn Ho. destruct (hard_points_to d (set_cols old new)) eqn:E; [|reflexivity]. exfalso.
+  unfold hard_points_to in E. apply existsb_exists in E as [c [Hc Hc2]]. unfold set_cols in Hc. apply in_app_or in Hc as [Hc|Hc].
+  - assert (hard_points_to d new = true) by (apply existsb_exists; eauto). congruence.
+  - apply filter_In in Hc as [Hc Hf]. destruct Ho as [Ho|Ho].
+    + assert (hard_points_to d old = true) by (apply existsb_exists; eauto). congruence.
+    + unfold overrides in Ho. apply andb_true_iff in Ho as [Ho _]. rewrite forallb_forall in Ho.
+      specialize (Ho c Hc). apply andb_true_iff in Hc2 as [_ Hc2]. destruct (snd c) as [t|]; [|discriminate]. rewrite Hc2 in Ho.
+      apply negb_true_iff in Hf. exact (eq_true_false_abs _ Ho Hf).
+Qed.
+
+Lemma in_null_refs : forall o cols c', In c' (null_refs o cols) -> exists c, In c cols /\ fst c' = fst c /\ (snd c' = snd c \/ snd c' = None).
+Proof.
+  intros o cols c' H. unfold null_refs in H. apply in_map_iff in H as [c [E Hc]]. exists c. split; [assumption|].
+  destruct (snd c) as [t|] eqn:Es.
+  - destruct (Nat.eqb t o && setnull_col (fst c)); subst c'; cbn; [split; [reflexivity | now right] | split; [reflexivity | now left]].
+  - subst c'. split; [reflexivity | now left].
+Qed.
+
+Lemma hard_null_refs : forall dd o cols, hard_points_to dd cols = false -> hard_points_to dd (null_refs o cols) = false.
+Proof.
+  intros dd o cols H. destruct (hard_points_to dd (null_refs o cols)) eqn:E; [|reflexivity]. exfalso.
+  unfold hard_points_to in E. apply existsb_exists in E as [c' [Hc' H2]]. destruct (in_null_refs _ _ _ Hc') as [c [Hc [Ef Es]]].
+  destruct Es as [Es|Es].
+  - assert (hard_points_to dd cols = true).
+    { apply existsb_exists. exists c. split; [assumption|]. destruct c as [n v], c' as [n' v']. cbn in *. subst. exact H2. }
+    congruence.
+  - apply andb_true_iff in H2 as [_ H3]. destruct c' as [n' v']. cbn in *. subst v'. discriminate H3.
+Qed.
+
+Lemma overrides_null_refs : forall dd o cols new, overrides cols new dd = true -> overrides (null_refs o cols) new dd = true.
+Proof.
+  intros dd o cols new H. unfold overrides in *. apply andb_true_iff in H as [H1 H2]. apply andb_true_iff; split; [|assumption].
+  rewrite forallb_forall in *. intros c' Hc'. destruct (in_null_refs _ _ _ Hc') as [c [Hc [Ef Es]]].
+  specialize (H1 c Hc). destruct c as [n v], c' as [n' v']. cbn in *. subst n'. destruct Es as [Es|Es]; subst v'; [exact H1 | reflexivity].
+Qed.
+
 (* ------------------------------------------------------------------------------------------------ the invariant *)
 Definition not_deleted (q : list obj) (t : oid) : Prop := pending_st q t <> Some Deleted.
 Definition ok_target (d : db) (q : list obj) (t : oid) : Prop := (has_row d t = true \/ is_created q t = true) /\ not_deleted q t.
@@ -131,7 +187,7 @@ Definition ok_target (d : db) (q : list obj) (t : oid) : Prop := (has_row d t = 
 (* why row r does not stand in the way of deleting dd: it is dd's own row, or does not point to it, or it is dealt with earlier in
    the queue (deleted itself, or updated so that every column that pointed to dd gets another value) *)
 Definition justified (q : list obj) (r : oid * list (nat * option oid)) (dd : oid) : Prop :=
-  fst r = dd \/ points_to dd (snd r) = false \/
+  fst r = dd \/ hard_points_to dd (snd r) = false \/
   (before q (fst r) dd = true /\ exists rb, lookup q (fst r) = Some rb /\
      (o_st rb = Deleted \/ (o_st rb = Modified /\ overrides (snd r) (o_cols rb) dd = true))).
 
@@ -142,7 +198,7 @@ Definition P_obj (d : db) (q : list obj) (ob : obj) : Prop :=
   | Deleted => has_row d (o_id ob) = true /\ forall r, In r (rows d) -> justified q r (o_id ob)
   end.
 
-Definition Inv (d : db) (q : list obj) : Prop := nodup_ids q = true /\ forall ob, In ob q -> P_obj d q ob.
+Definition Inv (d : db) (q : list obj) : Prop := coherent_ids q = true /\ forall ob, In ob q -> P_obj d q ob.
 
 Lemma not_deleted_drop : forall q o t, not_deleted q t -> not_deleted (drop q o) t.
 Proof.
@@ -158,11 +214,11 @@ Proof.
   - intros H. exists o. split; [assumption | apply Nat.eqb_refl].
 Qed.
 
-Lemma status_of_lookup : forall q o ob, nodup_ids q = true -> In ob q -> o_id ob = o -> pending_st q o = Some (o_st ob).
+Lemma status_of_lookup : forall q o ob, coherent_ids q = true -> In ob q -> o_id ob = o -> pending_st q o = Some (o_st ob).
 Proof. intros q o ob N H E. unfold pending_st. subst o. now rewrite (nodup_lookup_unique q ob N H). Qed.
 
 (* a justification survives the removal of an object that is neither the row's owner (as Deleted / Modified) nor dd *)
-Lemma justified_drop : forall q o r dd ob, nodup_ids q = true -> lookup q o = Some ob -> o_st ob = Created -> o <> dd ->
+Lemma justified_drop : forall q o r dd ob, coherent_ids q = true -> lookup q o = Some ob -> o_st ob = Created -> o <> dd ->
   justified q r dd -> justified (drop q o) r dd.
 Proof.
   intros q o r dd ob N Ho Hst Hd [H|[H|[Hb [rb [Hl Hs]]]]]; [now left | right; now left |].
@@ -188,7 +244,7 @@ Proof.
     assert (F : forallb (fun t => has_row d t || Nat.eqb t (o_id ob)) (targets_of (o_cols ob)) = true).
     { apply forallb_forall. intros t Hi. cbn beta. rewrite (Ht t Hi). reflexivity. }
     now rewrite F.
-  - split; [now apply nodup_ids_drop|]. intros ob' Hin'. apply in_drop in Hin' as [Hin' Hne].
+  - split; [now apply coherent_ids_drop|]. intros ob' Hin'. apply in_drop in Hin' as [Hin' Hne].
     pose proof (I ob' Hin') as P'. unfold P_obj in *.
     assert (Htarget : forall t, ok_target d q t -> ok_target (mkdb ((o_id ob, o_cols ob) :: rows d) (lnk d)) (drop q (o_id ob)) t).
     { intros t [[Hr|Hc] Hnd]; (split; [|now apply not_deleted_drop]).
@@ -205,7 +261,7 @@ Proof.
     + destruct P' as [Hr' Hj]. split; [rewrite has_row_cons, Hr'; apply orb_true_r|].
       intros r [<-|Hr].
       * (* the new row does not point to an object that is pending deletion *)
-        right; left. cbn [snd]. rewrite points_to_targets.
+        right; left. cbn [snd]. apply hard_false_of_points. rewrite points_to_targets.
         destruct (mem (o_id ob') (targets_of (o_cols ob))) eqn:Em; [|reflexivity]. exfalso.
         apply mem_in in Em. destruct (Htg _ Em) as [[_ Hnd] _]. apply Hnd.
         rewrite (status_of_lookup q (o_id ob') ob' N Hin' eq_refl). now rewrite Est'.
@@ -227,7 +283,7 @@ Proof.
   - cbn [exec]. rewrite Hr. cbn [negb].
     assert (F : forallb (has_row d) (targets_of (o_cols ob)) = true) by (apply forallb_forall; intros t Hi; now apply Ht).
     now rewrite F.
-  - split; [now apply nodup_ids_drop|]. intros ob' Hin'. apply in_drop in Hin' as [Hin' Hne].
+  - split; [now apply coherent_ids_drop|]. intros ob' Hin'. apply in_drop in Hin' as [Hin' Hne].
     pose proof (I ob' Hin') as P'. unfold P_obj in *.
     assert (Htarget : forall t, ok_target d q t -> ok_target d' (drop q (o_id ob)) t).
     { intros t [[Hrt|Hc] Hnd]; (split; [|now apply not_deleted_drop]).
@@ -243,8 +299,8 @@ Proof.
       destruct (Nat.eqb (fst r0) (o_id ob)) eqn:E.
       * (* the updated row: after the update it no longer points to dd *)
         apply Nat.eqb_eq in E. subst r. cbn [fst snd].
-        right; left. apply points_to_set_cols.
-        -- rewrite points_to_targets. destruct (mem (o_id ob') (targets_of (o_cols ob))) eqn:Em; [|reflexivity]. exfalso.
+        right; left. apply hard_set_cols.
+        -- apply hard_false_of_points. rewrite points_to_targets. destruct (mem (o_id ob') (targets_of (o_cols ob))) eqn:Em; [|reflexivity]. exfalso.
            apply mem_in in Em. destruct (Htg _ Em) as [_ Hnd]. apply Hnd.
            rewrite (status_of_lookup q (o_id ob') ob' N Hin' eq_refl). now rewrite Est'.
         -- destruct Hj as [Hj|[Hj|[Hb [rb [Hl Hs]]]]].
@@ -259,6 +315,14 @@ Proof.
         -- exists rb. split; [rewrite lookup_drop_other; [assumption | ne] | assumption].
 Qed.
 
+Lemma has_row_null : forall d l' o x,
+  has_row (mkdb (map (fun r => (fst r, null_refs o (snd r))) (filter (fun r => negb (Nat.eqb (fst r) o)) (rows d))) l') x
+  = negb (Nat.eqb x o) && has_row d x.
+Proof.
+  intros d l' o x. rewrite <- (has_row_filter d l' o x). unfold has_row. cbn [rows].
+  induction (filter (fun r => negb (Nat.eqb (fst r) o)) (rows d)) as [|r rs IH]; cbn; [reflexivity | now rewrite IH].
+Qed.
+
 Lemma step_delete : forall d ob q,
   Inv d (ob :: q) -> o_st ob = Deleted ->
   exists d', exec d (SDelete (o_id ob)) = Some d' /\ Inv d' (drop (ob :: q) (o_id ob)) /\
@@ -270,15 +334,15 @@ Proof.
   { unfold referenced. match goal with |- ?X = false => destruct X eqn:E; [|reflexivity] end. exfalso.
     apply existsb_exists in E as [r [Hrin Hc]]. apply andb_true_iff in Hc as [Hc1 Hc2]. apply negb_true_iff, Nat.eqb_neq in Hc1.
     destruct (Hj r Hrin) as [H|[H|[Hb _]]]; [exact (Hc1 H) | exact (eq_true_false_abs _ Hc2 H) |]. rewrite before_head in Hb. discriminate. }
-  set (d' := mkdb (filter (fun r => negb (Nat.eqb (fst r) (o_id ob))) (rows d))
+  set (d' := mkdb (map (fun r => (fst r, null_refs (o_id ob) (snd r))) (filter (fun r => negb (Nat.eqb (fst r) (o_id ob))) (rows d)))
                   (filter (fun l => negb (Nat.eqb (fst l) (o_id ob) || Nat.eqb (snd l) (o_id ob))) (lnk d))).
   assert (Hrows : forall x, has_row d' x = negb (Nat.eqb x (o_id ob)) && has_row d x).
-  { intros x. unfold d'. apply has_row_filter. }
+  { intros x. unfold d'. apply has_row_null. }
   exists d'. split; [|split; [|exact Hrows]].
   - cbn [exec]. now rewrite Hnoref.
-  - split; [now apply nodup_ids_drop|]. intros ob' Hin'. apply in_drop in Hin' as [Hin' Hne].
+  - split; [now apply coherent_ids_drop|]. intros ob' Hin'. apply in_drop in Hin' as [Hin' Hne].
     pose proof (I ob' Hin') as P'. unfold P_obj in *.
-    assert (Hlk : lookup (ob :: q) (o_id ob) = Some ob) by now apply nodup_lookup_head.
+    assert (Hlk : lookup (ob :: q) (o_id ob) = Some ob) by apply nodup_lookup_head.
     assert (Htarget : forall t, ok_target d (ob :: q) t -> ok_target d' (drop (ob :: q) (o_id ob)) t).
     { intros t [Hor Hnd]. assert (Hto : t <> o_id ob).
       { intro E. subst t. apply Hnd. unfold pending_st. rewrite Hlk. cbn. now rewrite Hst. }
@@ -293,12 +357,13 @@ Proof.
       * intros t Hi. now apply Htarget, Htg'.
     + destruct P' as [Hr' Hj']. split.
       * rewrite Hrows, Hr'. apply Nat.eqb_neq in Hne. now rewrite Hne.
-      * intros r Hrin. unfold d' in Hrin. cbn [rows] in Hrin. apply filter_In in Hrin as [Hrin Hf].
-        apply negb_true_iff, Nat.eqb_neq in Hf.
-        destruct (Hj' r Hrin) as [H|[H|[Hb [rb [Hl Hs]]]]]; [now left | right; now left |].
+      * intros r' Hrin. unfold d' in Hrin. cbn [rows] in Hrin. apply in_map_iff in Hrin as [r [Er Hrin]]. apply filter_In in Hrin as [Hrin Hf].
+        apply negb_true_iff, Nat.eqb_neq in Hf. subst r'. unfold justified. cbn [fst snd].
+        destruct (Hj' r Hrin) as [H|[H|[Hb [rb [Hl Hs]]]]]; [now left | right; left; now apply hard_null_refs |].
         right; right. split.
         -- rewrite before_drop; [assumption | ne | ne].
-        -- exists rb. split; [rewrite lookup_drop_other; [assumption | ne] | assumption].
+        -- exists rb. split; [rewrite lookup_drop_other; [assumption | ne] |].
+           destruct Hs as [Hs|[Hs1 Hs2]]; [now left | right; split; [assumption | now apply overrides_null_refs]].
 Qed.
 
 (* ------------------------------------------------------------------------------------------------ sequences of statements *)
@@ -568,7 +633,7 @@ Proof.
   - destruct q as [|ob q0].
     + exists out, d. cbn. repeat split; auto. intros x Hc. discriminate.
     + cbn [save_all].
-      assert (Hl : lookup (ob :: q0) (o_id ob) = Some ob) by (apply nodup_lookup_head, HI).
+      assert (Hl : lookup (ob :: q0) (o_id ob) = Some ob) by apply nodup_lookup_head.
       destruct (save_ok fuel (o_id ob) (ob :: q0) out [] d ob Hf Hex HI HR Hl) as [q' [out' [deps' [d' [Hsv P]]]]].
       { intros Est. split; [specialize (Hrk _ _ Hl Est); lia | intros x []]. }
       { intros Est. split; [reflexivity|]. intros t Ht Hc. unfold is_created in Hc.
@@ -644,7 +709,7 @@ Proof.
       destruct (o_st rb); [discriminate | right; auto | now left].
 Qed.
 
-Lemma ranked_to_l : forall q rank, nodup_ids q = true -> ranked q rank -> ranked_l rank q.
+Lemma ranked_to_l : forall q rank, coherent_ids q = true -> ranked q rank -> ranked_l rank q.
 Proof.
   intros q rank N R o ob t Hl Hst Ht Hc. destruct (lookup_in _ _ _ Hl) as [Hin <-]. eapply R; eassumption.
 Qed.
@@ -799,4 +864,173 @@ Proof.
       as [q1 out1 deps1| |] eqn:E; try discriminate.
     exact (save_all_cycle _ _ _ _ _ _ _ _ Hc E). }
   split; [exact H|]. unfold commit. destruct (flush p) as [ss| |] eqn:E; try reflexivity. exfalso. exact (H ss eq_refl).
+Qed.
+
+(* ------------------------------------------------------------------------------------------------ the fuel never runs out
+   dependent_objects has no repetitions (the cycle test) and only holds objects of the queue, so its length - and with it the depth
+   of the recursion - is bounded by the number of queued objects. *)
+Definition ids (q : list obj) : list oid := map o_id q.
+
+Lemma ids_drop_incl : forall q o, incl (ids (drop q o)) (ids q).
+Proof. intros q o x H. unfold ids in *. apply in_map_iff in H as [ob [E Hin]]. apply in_drop in Hin as [Hin _]. apply in_map_iff. eauto. Qed.
+
+Lemma lookup_ids : forall q o ob, lookup q o = Some ob -> In o (ids q).
+Proof. intros q o ob H. destruct (lookup_in _ _ _ H) as [Hin <-]. unfold ids. now apply in_map. Qed.
+
+Lemma mem_false_notin : forall o l, mem o l = false -> ~ In o l.
+Proof. intros o l H Hin. apply mem_in in Hin. congruence. Qed.
+
+Lemma lookup_none_ids : forall q o, lookup q o = None -> ~ In o (ids q).
+Proof.
+  intros q o H Hin. unfold ids in Hin. apply in_map_iff in Hin as [ob [E Hob]].
+  unfold lookup in H. apply (find_none _ _ H) in Hob. rewrite E, Nat.eqb_refl in Hob. discriminate.
+Qed.
+
+Lemma ids_lookup : forall q o, In o (ids q) -> exists ob, lookup q o = Some ob.
+Proof.
+  intros q o H. destruct (lookup q o) as [ob|] eqn:E; [eauto|]. exfalso. exact (lookup_none_ids _ _ E H).
+Qed.
+
+Lemma NoDup_snoc : forall (l : list oid) x, NoDup l -> ~ In x l -> NoDup (l ++ [x]).
+Proof.
+  induction l as [|a l IH]; intros x Hn Hx; cbn; [constructor; [intros []|constructor]|].
+  inversion Hn; subst. constructor.
+  - intro Hin. apply in_app_or in Hin as [Hin|[<-|[]]]; [contradiction | apply Hx; now left].
+  - apply IH; [assumption | intro; apply Hx; now right].
+Qed.
+
+(* what every successful (partial) run does to the queue and to dependent_objects *)
+Definition shape (q : list obj) (deps : list oid) (q' : list obj) (deps' : list oid) (U : list oid) : Prop :=
+  NoDup deps' /\ incl deps' U /\ (exists extra, deps' = deps ++ extra) /\ incl (ids q') (ids q) /\ length q' <= length q /\
+  (forall x, In x (ids q) -> ~ In x (ids q') -> length q' < length q).
+
+Lemma shape_refl : forall q deps U, NoDup deps -> incl deps U -> shape q deps q deps U.
+Proof.
+  intros. repeat split; auto; try apply incl_refl. exists []. now rewrite app_nil_r. intros x H1 H2. contradiction.
+Qed.
+
+Lemma shape_trans : forall q deps q1 deps1 q2 deps2 U, shape q deps q1 deps1 U -> shape q1 deps1 q2 deps2 U -> shape q deps q2 deps2 U.
+Proof.
+  intros q deps q1 deps1 q2 deps2 U [A1 [A2 [[e1 A3] [A4 [A5 A6]]]]] [B1 [B2 [[e2 B3] [B4 [B5 B6]]]]].
+  repeat split; auto.
+  - exists (e1 ++ e2). subst. now rewrite app_assoc.
+  - eapply incl_tran; eassumption.
+  - lia.
+  - intros x Hx Hnx. destruct (in_dec Nat.eq_dec x (ids q1)) as [H1|H1].
+    + specialize (B6 x H1 Hnx). lia.
+    + specialize (A6 x Hx H1). lia.
+Qed.
+
+Lemma shape_drop : forall q deps U o, NoDup deps -> incl deps U -> shape q deps (drop q o) deps U.
+Proof.
+  intros q deps U o Hn Hi. repeat split; auto.
+  - exists []. now rewrite app_nil_r.
+  - apply ids_drop_incl.
+  - apply subq_length.
+  - intros x Hx Hnx. destruct (Nat.eq_dec x o) as [->|Hne].
+    + destruct (ids_lookup _ _ Hx) as [ob Hl]. eapply length_drop; eassumption.
+    + exfalso. apply Hnx. unfold ids in *. apply in_map_iff in Hx as [ob [E Hob]]. apply in_map_iff. exists ob. split; [assumption|].
+      apply in_drop. split; [assumption | congruence].
+Qed.
+
+Lemma shape_principals : forall sv U,
+  (forall t q out deps q' out' deps', sv t q out deps = ROk q' out' deps' -> NoDup deps -> incl deps U -> incl (ids q) U -> shape q deps q' deps' U) ->
+  forall ts q out deps q' out' deps', principals sv ts q out deps = ROk q' out' deps' -> NoDup deps -> incl deps U -> incl (ids q) U ->
+    shape q deps q' deps' U.
+Proof.
+  intros sv U Hsv ts. induction ts as [|t ts IH]; intros q out deps q' out' deps' Hp Hn Hi Hq; cbn in Hp.
+  - injection Hp as <- <- <-. now apply shape_refl.
+  - destruct (is_created q t); [|eapply IH; eassumption].
+    destruct (sv t q out deps) as [q1 out1 deps1| |] eqn:E; try discriminate.
+    pose proof (Hsv _ _ _ _ _ _ _ E Hn Hi Hq) as S1. destruct S1 as [A1 [A2 [A3 [A4 A5]]]].
+    eapply shape_trans; [exact (conj A1 (conj A2 (conj A3 (conj A4 A5)))) | apply IH with (out := out1) (out' := out'); auto; eapply incl_tran; eassumption].
+Qed.
+
+Lemma shape_save : forall f U o q out deps q' out' deps',
+  save f o q out deps = ROk q' out' deps' -> NoDup deps -> incl deps U -> incl (ids q) U -> shape q deps q' deps' U.
+Proof.
+  induction f as [|f IHf]; intros U o q out deps q' out' deps' Hs Hn Hi Hq; cbn [save] in Hs; [discriminate|].
+  destruct (lookup q o) as [ob|] eqn:El.
+  2:{ injection Hs as <- <- <-. now apply shape_refl. }
+  assert (Hgen : forall q1 out1 deps1, principals (save f) (targets ob) q out (deps ++ [o]) = ROk q1 out1 deps1 -> mem o deps = false ->
+                 shape q deps (drop q1 o) deps1 U).
+  { intros q1 out1 deps1 Ep Hm.
+    assert (Hn1 : NoDup (deps ++ [o])) by (apply NoDup_snoc; [assumption | now apply mem_false_notin]).
+    assert (Hi1 : incl (deps ++ [o]) U).
+    { intros x Hx. apply in_app_or in Hx as [Hx|[<-|[]]]; [now apply Hi | apply Hq; eapply lookup_ids; eassumption]. }
+    pose proof (shape_principals (save f) U (fun t q0 out0 deps0 q2 out2 deps2 => IHf U t q0 out0 deps0 q2 out2 deps2)
+                  _ _ _ _ _ _ _ Ep Hn1 Hi1 Hq) as S1.
+    assert (S0 : shape q deps q (deps ++ [o]) U).
+    { repeat split; auto; try apply incl_refl. exists [o]; reflexivity. intros x H1 H2; contradiction. }
+    destruct S1 as [A1 [A2 A3]].
+    eapply shape_trans; [exact S0|]. eapply shape_trans; [exact (conj A1 (conj A2 A3))|]. now apply shape_drop. }
+  destruct (o_st ob).
+  - destruct (mem o deps) eqn:Hm; [discriminate|].
+    destruct (principals (save f) (targets ob) q out (deps ++ [o])) as [q1 out1 deps1| |] eqn:Ep; try discriminate.
+    injection Hs as <- <- <-. exact (Hgen q1 out1 deps1 eq_refl eq_refl).
+  - destruct (mem o deps) eqn:Hm; [discriminate|].
+    destruct (principals (save f) (targets ob) q out (deps ++ [o])) as [q1 out1 deps1| |] eqn:Ep; try discriminate.
+    injection Hs as <- <- <-. exact (Hgen q1 out1 deps1 eq_refl eq_refl).
+  - injection Hs as <- <- <-. now apply shape_drop.
+Qed.
+
+Lemma principals_no_fuel : forall f U,
+  (forall t q out deps, NoDup deps -> incl deps U -> incl (ids q) U -> length U < length deps + f -> save f t q out deps <> RFuel) ->
+  forall ts q out deps, NoDup deps -> incl deps U -> incl (ids q) U -> length U < length deps + f ->
+    principals (save f) ts q out deps <> RFuel.
+Proof.
+  intros f U Hsv ts. induction ts as [|t ts IH]; intros q out deps Hn Hi Hq Hl; cbn; [discriminate|].
+  destruct (is_created q t); [|apply IH; assumption].
+  destruct (save f t q out deps) as [q1 out1 deps1| |] eqn:E; [|discriminate|exfalso; eapply Hsv; eassumption].
+  destruct (shape_save _ U _ _ _ _ _ _ _ E Hn Hi Hq) as [A1 [A2 [[e A3] [A4 A5]]]].
+  apply IH; auto; [eapply incl_tran; eassumption|]. subst deps1. rewrite app_length. lia.
+Qed.
+
+Lemma save_no_fuel : forall f U t q out deps,
+  NoDup deps -> incl deps U -> incl (ids q) U -> length U < length deps + f -> save f t q out deps <> RFuel.
+Proof.
+  induction f as [|f IHf]; intros U t q out deps Hn Hi Hq Hl.
+  - exfalso. pose proof (NoDup_incl_length Hn Hi). lia.
+  - cbn [save]. destruct (lookup q t) as [ob|] eqn:El; [|discriminate].
+    assert (Hp : mem t deps = false -> principals (save f) (targets ob) q out (deps ++ [t]) <> RFuel).
+    { intros Hm. apply (principals_no_fuel f U (IHf U)).
+      - apply NoDup_snoc; [assumption | now apply mem_false_notin].
+      - intros x Hx. apply in_app_or in Hx as [Hx|[<-|[]]]; [now apply Hi | apply Hq; eapply lookup_ids; eassumption].
+      - assumption.
+      - rewrite app_length. cbn. lia. }
+    destruct (o_st ob); try discriminate;
+      (destruct (mem t deps) eqn:Hm; [discriminate|]; specialize (Hp eq_refl);
+       destruct (principals (save f) (targets ob) q out (deps ++ [t])) as [q1 out1 deps1| |]; [discriminate | discriminate | congruence]).
+Qed.
+
+Lemma save_all_no_fuel : forall n fuel U q out,
+  length q <= n -> incl (ids q) U -> length U < fuel -> save_all n fuel q out <> RFuel.
+Proof.
+  induction n as [|n IH]; intros fuel U q out Hlen Hq Hf; cbn [save_all].
+  - destruct q; [discriminate | cbn in Hlen; lia].
+  - destruct q as [|ob q0]; [discriminate|].
+    destruct (save fuel (o_id ob) (ob :: q0) out []) as [q1 out1 deps1| |] eqn:E; [|discriminate|].
+    + pose proof (shape_save _ U _ _ _ _ _ _ _ E (NoDup_nil _) (incl_nil_l _) Hq) as [_ [_ [_ [A4 [A5 A6]]]]].
+      apply (IH fuel U); [|eapply incl_tran; eassumption | assumption].
+      assert (Hl : lookup (ob :: q0) (o_id ob) = Some ob) by (unfold lookup; cbn; now rewrite Nat.eqb_refl).
+      pose proof (save_ok_gone _ _ _ _ _ _ _ _ _ Hl E) as Hg.
+      specialize (A6 (o_id ob) (lookup_ids _ _ _ Hl) (lookup_none_ids _ _ Hg)). cbn [length] in *. lia.
+    + exfalso. exact (save_no_fuel fuel U _ _ _ [] (NoDup_nil _) (incl_nil_l _) Hq ltac:(cbn; lia) E).
+Qed.
+
+(* flush never fails for lack of fuel: whatever the pending set, the result is a statement list or the cycle error *)
+Theorem flush_no_fuel : forall p, flush p <> FFuel.
+Proof.
+  intros p H. unfold flush in H.
+  destruct (save_all (length (p_queue p)) (S (length (p_queue p))) (p_queue p) (map (fun l => SLinkDel (fst l) (snd l)) (p_removed p)))
+    as [q1 out1 deps1| |] eqn:E; try discriminate.
+  eapply (save_all_no_fuel _ _ (ids (p_queue p))); [apply le_n | apply incl_refl | | exact E].
+  unfold ids. rewrite map_length. lia.
+Qed.
+
+Theorem flush_cycle_error : forall d p cyc, on_cycle (p_queue p) cyc ->
+  (exists chain, flush p = FCycle chain) /\ commit d p = (d, false).
+Proof.
+  intros d p cyc Hc. destruct (flush_cycle d p cyc Hc) as [H1 H2]. split; [|exact H2].
+  destruct (flush p) as [ss|chain|] eqn:E; [exfalso; exact (H1 ss eq_refl) | eauto | exfalso; exact (flush_no_fuel p E)].
 Qed.
